@@ -128,7 +128,7 @@ def gen_case(g, cid, force_kind=None):
 
 
 def total_runs(tier):
-    return 350 if tier == 'quick' else 8000
+    return 350 if tier == 'quick' else 12000
 
 
 def make_plan(i, master, tier):
